@@ -151,7 +151,12 @@ func genC18(c *Chooser) *c18Graph {
 			}
 		}
 		if allowDangling && c.Weighted("world.dangling", 1, 4) {
-			job.Needs = append(job.Needs, c18Case(c, "zz"+strconv.Itoa(c.Int("world.dname", 2))))
+			dn := "zz" + strconv.Itoa(c.Int("world.dname", 2))
+			job.Needs = append(job.Needs, c18Case(c, dn))
+			if c.Weighted("world.dupdangling", 1, 4) {
+				// the missing job is named twice (possibly in another letter case), anywhere in the list
+				job.Needs = append(job.Needs, c18Case(c, dn))
+			}
 		}
 		if allowStubs && c.Weighted("world.stub", 1, 3) {
 			// the job exists (its id is a key of `jobs`) but its body is not written yet: it needs nothing
